@@ -235,7 +235,14 @@ def readFromStream(substrate, size=-1, context=None):
 
     while True:
         # this will block unless stream is non-blocking
-        received = substrate.read(size)
+        try:
+            received = substrate.read(size)
+
+        except (MemoryError, OverflowError):
+            # the size comes from the input: a stream that can not even
+            # attempt the read does not hold that much
+            raise error.EndOfStreamError(context=context)
+
         if received is None:  # non-blocking stream can do this
             yield error.SubstrateUnderrunError(context=context)
 
